@@ -20,18 +20,11 @@ Definition module_small (M : vmodule) : Prop :=
   Forall (fun fe => (N.of_nat (fe_locals fe) <= 65536)%N) (m_fns M) /\
   (N.of_nat (length (m_fns M)) <= 4294967296)%N.
 
-(* "ensure function always returns" looks at the last BYTE of the body's code: if that byte is 61 (RET) no
-   epilogue is added.  The simulation needs: in that case the body really cannot complete normally. *)
-Definition fn_epilogue_ok (G : genv) (d : fn) : Prop :=
-  always_returns (fbody d) = true \/
-  forall p c ce p' bs, compile_stmt G 0 None (map fst (fparams d)) (fbody d) p = Some (c, ce, p') ->
-                       encode_all c = Some bs -> last_byte_is_ret bs = false.
-
 Definition prog_genv (pr : program) : genv :=
   {| g_globals := map (fun g => fst (fst g)) (pglobals pr); g_fns := map fname (pfns pr) |}.
 
 Definition source_ok (pr : program) : Prop :=
-  Forall fn_ok (pfns pr) /\ Forall (fn_epilogue_ok (prog_genv pr)) (pfns pr) /\
+  Forall fn_ok (pfns pr) /\
   Forall (fun g => expr_ok (snd g)) (pglobals pr) /\
   NoDup (map (fun g => fst (fst g)) (pglobals pr)) /\ length (pglobals pr) <= VM_MAX_GLOBALS_N.
 
@@ -51,15 +44,12 @@ Qed.
 (* ---------- one function body ---------- *)
 Lemma compile_fn_body_spec G d p bs nloc p' : compile_fn_body G d p = Some (bs, nloc, p') ->
   exists c ce, compile_stmt G 0 None (map fst (fparams d)) (fbody d) p = Some (c, ce, p') /\ nloc = length ce /\
-    ((encode_all (c ++ epi) = Some bs /\ exists bs0, encode_all c = Some bs0 /\ last_byte_is_ret bs0 = false) \/
-     (encode_all c = Some bs /\ last_byte_is_ret bs = true)).
+    encode_all (c ++ epi) = Some bs.
 Proof.
   unfold compile_fn_body. destruct (compile_stmt G 0 None (map fst (fparams d)) (fbody d) p) as [[[c ce] p1]|]; [|discriminate].
   destruct (encode_all c) as [bs0|] eqn:E; [|discriminate]. intros H.
-  exists c, ce. destruct (last_byte_is_ret bs0) eqn:Er; apply some3_inj in H; destruct H as (<- & <- & <-).
-  - split; [reflexivity|]. split; [reflexivity|]. right. auto.
-  - split; [reflexivity|]. split; [reflexivity|]. left. split; [|exists bs0; auto].
-    rewrite encode_all_app, E. reflexivity.
+  exists c, ce. apply some3_inj in H. destruct H as (<- & <- & <-).
+  split; [reflexivity|]. split; [reflexivity|]. rewrite encode_all_app, E. reflexivity.
 Qed.
 
 (* ---------- the function table ---------- *)
@@ -102,10 +92,10 @@ Lemma fns_compiled_intro G M fns names p code es p' pre extra :
   compile_fns G fns names (length pre) p = Some (code, es, p') ->
   m_code M = pre ++ code -> m_fns M = es ++ extra -> m_strings M = p' -> g_fns G = map fname fns ->
   module_small M -> length (g_globals G) <= VM_MAX_GLOBALS_N ->
-  Forall fn_ok fns -> Forall (fn_epilogue_ok G) fns ->
+  Forall fn_ok fns ->
   fns_compiled fns G M.
 Proof.
-  intros Hcf Hcode Hfns Hstr Hgf (Hsm1 & Hsm2 & Hsm3 & Hsm4) HG Hok Hepi f d Hfind.
+  intros Hcf Hcode Hfns Hstr Hgf (Hsm1 & Hsm2 & Hsm3 & Hsm4) HG Hok f d Hfind.
   destruct (find_fn_index _ _ _ 0 Hfind) as (idx & Hidx & Hnth). cbn [Nat.add] in Hidx. rewrite <- Hgf in Hidx.
   exists idx. split; [exact Hidx|].
   destruct (compile_fns_spec _ _ _ _ _ _ _ _ Hcf) as (Hl & Hp & Hall).
@@ -114,7 +104,6 @@ Proof.
   assert (Hfe' : fentry_at M idx = Some fe).
   { unfold fentry_at. rewrite Hfns. rewrite nth_error_app1; [exact Hfe|]. apply nth_error_Some. rewrite Hfe. discriminate. }
   assert (Hfd : fn_ok d) by (rewrite Forall_forall in Hok; apply Hok; eapply nth_error_In; eassumption).
-  assert (Hed : fn_epilogue_ok G d) by (rewrite Forall_forall in Hepi; apply Hepi; eapply nth_error_In; eassumption).
   assert (Hloc : (N.of_nat (length ce) <= 65536)%N).
   { rewrite Forall_forall in Hsm3. rewrite <- Hnl. apply Hsm3. unfold fentry_at in Hfe'. eapply nth_error_In; eassumption. }
   assert (Hlims : lims G (length ce) (length pi')).
@@ -127,17 +116,10 @@ Proof.
   assert (Hbl : (Z.of_nat (length bs) < 2147483648)%Z).
   { assert (length bs <= length (m_code M)); [|lia].
     rewrite <- Hregion at 1. rewrite firstn_length, skipn_length. lia. }
-  destruct Henc as [[He (bs0 & He0 & Hr)] | [He Hr]].
-  - exists fe, (c ++ epi), c, ce, pi, pi'.
-    split; [exact Hfe'|]. split.
-    { split; [apply Forall_app; split; [exact Hwf|exact epi_wf]|]. exists bs. split; [exact He|]. split; [congruence|exact Hregion]. }
-    split; [rewrite <- (encode_all_length _ _ He); exact Hbl|]. split; [exact Har|]. split; [exact Hnl|]. split; [exact Hc|].
-    split; [rewrite Hstr; exact Hpi|]. split; [left; reflexivity|exact Hfd].
-  - destruct Hed as [Har' | Hne].
-    + exists fe, c, c, ce, pi, pi'.
-      split; [exact Hfe'|]. split.
-      { split; [exact Hwf|]. exists bs. split; [exact He|]. split; [congruence|exact Hregion]. }
-      split; [rewrite <- (encode_all_length _ _ He); exact Hbl|]. split; [exact Har|]. split; [exact Hnl|]. split; [exact Hc|].
-      split; [rewrite Hstr; exact Hpi|]. split; [right; auto|exact Hfd].
-    + rewrite (Hne _ _ _ _ _ Hc He) in Hr. discriminate.
+  rename Henc into He.
+  exists fe, (c ++ epi), c, ce, pi, pi'.
+  split; [exact Hfe'|]. split.
+  { split; [apply Forall_app; split; [exact Hwf|exact epi_wf]|]. exists bs. split; [exact He|]. split; [congruence|exact Hregion]. }
+  split; [rewrite <- (encode_all_length _ _ He); exact Hbl|]. split; [exact Har|]. split; [exact Hnl|]. split; [exact Hc|].
+  split; [rewrite Hstr; exact Hpi|]. split; [reflexivity|exact Hfd].
 Qed.
